@@ -9,6 +9,7 @@
   theorem quantifies over all of them and all their sweeps.
 -/
 import TcVerif.Props.C02
+import TcVerif.Props.C18
 namespace TcVerif
 
 /-- tokens admitted for key `k` with timestamps in `[t1,t2]` -/
@@ -74,5 +75,57 @@ example : admittedTokensK "k" 9000000000 9000000000
   decide
 
 example : DomD 1000000000 2 := ⟨by decide, by decide, by decide⟩
+
+end TcVerif
+
+namespace TcVerif
+
+/-! ### end-to-end form: the emission interval is the one `rate_limit` computes (C18: it is the floor) -/
+
+theorem fixedD_weaken {ei : Int → Int → Int} {E B t0 t1 : Int} {rs : List Req} (h01 : t0 ≤ t1)
+    (h : FixedD ei E B t1 rs) : FixedD ei E B t0 rs := by
+  cases rs with
+  | nil => trivial
+  | cons r rs =>
+    obtain ⟨h1, h2, h3⟩ := h
+    exact ⟨⟨h1.dom, h1.burst, h1.valid, by have := h1.mono; omega, h1.now0, h1.now1⟩, h2, h3⟩
+
+/-- a monotone multi-key history whose requests on `k` all carry the limits `(B,c,p)` (valid
+    quantities, time within 1970..2100) satisfies `FixedD` for `k`'s sub-history -/
+theorem fixedD_of_forall (ei : Int → Int → Int) (E B : Int) (k : Key) (rs : List Req) (t0 : Int)
+    (hD : DomD E B) (hm : MonotoneFrom t0 rs)
+    (hreqs : ∀ r ∈ rs, r.key = k → r.burst = B ∧ ei r.count r.period = E ∧ r.valid ∧ 0 ≤ r.now ∧ r.now ≤ T_MAX) :
+    FixedD ei E B t0 (rs.filter (fun r => r.key = k)) := by
+  induction rs generalizing t0 with
+  | nil => trivial
+  | cons r rs ih =>
+    obtain ⟨h0, hm'⟩ := hm
+    have ih' := ih r.now hm' (fun r' hr' => hreqs r' (List.mem_cons_of_mem _ hr'))
+    by_cases hk : r.key = k
+    · obtain ⟨hb, he, hv, hn0, hn1⟩ := hreqs r (List.mem_cons_self ..) hk
+      simp only [List.filter, hk, decide_true]
+      exact ⟨⟨hD, hb, hv, h0, hn0, hn1⟩, he, ih'⟩
+    · simp only [List.filter, hk, decide_false]
+      exact fixedD_weaken h0 ih'
+
+/-- **C01 for `rate_limit` itself**: limits `(B, c, p)` in the domain D of the property, the interval
+    computed by the (soft-float model of the) code, which by C18 is `p·10⁹ / c`. -/
+theorem C01_window_bound_rate_limit (k : Key) (rs : List Req) (t0 : Int) (B c p : Int)
+    (st : AnyStore) (hst : st.data = []) (hm : MonotoneFrom t0 rs)
+    (hp1 : 1 ≤ p) (hp2 : p ≤ 9000000) (hc1 : 1 ≤ c) (hc2 : c ≤ p * 1000000000) (hB : 1 ≤ B)
+    (hBE : B * (p * 1000000000 / c) ≤ TWO60)
+    (hreqs : ∀ r ∈ rs, r.key = k → r.burst = B ∧ r.count = c ∧ r.period = p ∧ 0 ≤ r.qty ∧ 0 ≤ r.now ∧ r.now ≤ T_MAX)
+    (t1 t2 : Int) (h12 : t1 ≤ t2) :
+    admittedTokensK k t1 t2 (runTagged AnyStore.ops emissionInterval st rs) ≤ B + (t2 - t1) / (p * 1000000000 / c) := by
+  have hE : emissionInterval c p = p * 1000000000 / c := C18_floor c p hp1 hp2 hc1 hc2
+  have hE1 : 1 ≤ p * 1000000000 / c := by
+    have := (Int.le_ediv_iff_mul_le (by omega : 0 < c)).mpr (by omega : 1 * c ≤ p * 1000000000)
+    omega
+  have hD : DomD (p * 1000000000 / c) B := ⟨hE1, hB, hBE⟩
+  have hfix := fixedD_of_forall emissionInterval (p * 1000000000 / c) B k rs t0 hD hm (by
+    intro r hr hk
+    obtain ⟨h1, h2, h3, h4, h5, h6⟩ := hreqs r hr hk
+    exact ⟨h1, by rw [h2, h3]; exact hE, ⟨h4, by omega, by omega, by omega⟩, h5, h6⟩)
+  exact C01_window_bound emissionInterval k rs t0 _ B st hst hm hfix hD t1 t2 h12
 
 end TcVerif
